@@ -179,7 +179,7 @@ def gen_block_doc(r):
         r.shuffle(keys)
     lines, bounds = [], []
     for _ in range(r.choice([0, 0, 1, 3])):
-        lines.append(r.choice(["# my project config", "#", "# thailint settings \u2014 do not edit by hand", ""]))
+        lines.append(r.choice(["# my project config", "#", "# thailint settings \u2014 do not edit by hand", "", "  # indented note", "   "]))
     docstart = r.random() < 0.15
     if docstart:
         lines.append("---")
@@ -1478,7 +1478,7 @@ def run(tier: str, seed: int, replay: str | None = None) -> int:
             loc_cands = decide_loc(chk, case, res, ver, loc_cands)
         elif s in ("xtr", "mfn"):
             chk.dist("stream:" + s)
-            chk.count([s, case.get("lines") or [case["text"], case["texts"]]], True)
+            chk.count([s, case["lines"] if s == "xtr" else [case["text"], case["texts"]]], True)   # an xtr case may have no line at all
             if ver is None:
                 continue
             chk.traces_validated += 1
@@ -1558,7 +1558,12 @@ def decide_init(chk, case, res, ver, cands_all):
     if ver is None:
         # no verdict from the Coq side (the model did not build): by C20_init_config_partial a specification failure on a
         # file outside the three defect classes cannot be a listed finding
-        if dE is not None and not all(pb) and outside_defect_classes(E, dE, "q_missing_by_raw_key" in chk.known["known"]):
+        if dE is not None and pb == [True, True, False, True, True, True, True] and last_line_in_block_scalar(E) \
+                and "eof_rstrip_changes_block_scalar" in chk.known["known"]:
+            # the listed input class of the end-of-file finding (judged with PyYAML alone also when the model is available)
+            chk.known_finding("eof_rstrip_changes_block_scalar", {"preset": case["preset"], "existing": E, "violated": ["settings_in_effect"],
+                                                                  "after_excerpt": R[:600]})
+        elif dE is not None and not all(pb) and outside_defect_classes(E, dE, "q_missing_by_raw_key" in chk.known["known"]):
             chk.violation({"reason": "init-config on an existing valid configuration violates: "
                                      + ", ".join(n for n, b in zip(BIT_NAMES, pb) if not b)
                                      + " (model unavailable; the file avoids every listed defect class)",
